@@ -189,10 +189,38 @@ def prove(assumptions, goal, timeout=None, want_model=True):
     return ('proved', b, None, dt)
 
 
+def _skolemise_bytes_eq(goal):
+    """goal `c1 == c2` between two named byte strings: equal lengths and equal contents at a fresh index
+    (what extensionality would do, without putting the lambda definitions into the query)"""
+    from .values import DEFS, INPUT_BYTES, BytesS, fresh_name
+    if not (z3.is_eq(goal) and goal.num_args() == 2):
+        return goal
+    a, b = goal.arg(0), goal.arg(1)
+    if a.sort() != BytesS:
+        return goal
+
+    def parts(t):
+        if t.get_id() in DEFS and t.get_id() not in INPUT_BYTES:
+            d = DEFS[t.get_id()][1].arg(1)          # c == mkb(len, lambda)
+            return d.arg(0), d.arg(1)
+        if z3.is_app(t) and t.decl().name() == 'mkb':
+            return t.arg(0), t.arg(1)
+        if t.get_id() in INPUT_BYTES:
+            d = DEFS[t.get_id()][1].arg(1)
+            return d.arg(0), d.arg(1)
+        return None
+    pa, pb = parts(a), parts(b)
+    if pa is None or pb is None:
+        return goal
+    k = z3.Int(fresh_name('ext'))
+    return z3.And(pa[0] == pb[0], z3.simplify(z3.Select(pa[1], k)) == z3.simplify(z3.Select(pb[1], k)))
+
+
 def _prove1(assumptions, goal, timeout):
     backend = 'z3-%s' % z3.get_version_string()
     if z3.is_true(goal):
         return 'proved', 'simplifier', None
+    goal = _skolemise_bytes_eq(goal)
     all_defs = collect_defs(assumptions + [goal])
     neg = z3.Not(goal)
     weak_model = None
@@ -220,11 +248,28 @@ def _prove1(assumptions, goal, timeout):
     # counterexample search over small pre-states: the quantified invariants of the entry state become trivial when
     # the dictionaries / lists of the pre-state are empty or singletons.  A model found here satisfies the complete
     # (exact) formula, so it is a genuine refutation.
-    full = assumptions + light + [d[1] for d in all_defs] + [neg]
-    for shape in small_shapes(full):
+    from .values import INPUT_BYTES, BytesS
+    inputs = [d[0] for d in all_defs if d[0].get_id() in INPUT_BYTES]
+    other_defs = [d[1] for d in all_defs if d[0].get_id() not in INPUT_BYTES]
+    # symbolic input byte strings: at most 8 bytes, contents as an explicit store chain over zeros (this is their
+    # normal form, so the lambda definition is not needed)
+    short = []
+    for c in inputs:
+        arr = z3.K(z3.IntSort(), z3.IntVal(0))
+        for j in range(8):
+            e = z3.Int('small_b!%d!%s' % (j, c.decl().name()))
+            arr = z3.Store(arr, j, z3.If(j < BytesS.blen(c), e, 0))
+            short.append(z3.And(e >= 0, e <= 255))
+        short.append(z3.And(BytesS.blen(c) >= 0, BytesS.blen(c) <= 8, BytesS.barr(c) == arr))
+    full = assumptions + light + other_defs + short + [neg]
+    shapes = small_shapes(full) or [[]]
+    for shape in ([[]] if inputs else []) + shapes:
         s2, r2 = _solve(full + shape, min(timeout, 4000))
         if r2 == z3.sat:
             return 'refuted', backend + '+small-prestate', s2.model()
+    if os.environ.get('PYVC_DEBUG'):
+        print('DEBUG unknown; defs:', [d[0].decl().name() for d in all_defs], 'inputs:', [c.decl().name() for c in inputs])
+        open('/tmp/unk_full.smt2', 'w').write(s2.to_smt2())
     smt2 = None
     try:
         smt2 = s.to_smt2()
